@@ -27,6 +27,11 @@ CHECKS.update({
  "C16": ("3.C16", "Connect to listening/refusing/vetoed peers, duplicate Connect, inbound peer connections with and without permission, ConnectionBind with right/wrong/foreign id, right/wrong user, twice, at 29 s/29.9 s/30.1 s/31 s, byte streams both ways under arbitrary segmentation and read sizes, closes/resets from either side; ids unique and backed by a real simnet connection from/at the relayed address, one bind per id by the owner within 30 s, unbound connections closed at +30 s, streams equal in content and order, 446 on duplicate Connect and no lock left held", SRV),
  "C18": ("3.C18", "server-world histories (incl. teardown and TCP-relay plans) with stalls at callbacks, logger calls, socket calls and every lock acquisition/release; no panic (worker death is attributed to the persisted plan), no acquisition still blocked and no lock held at idle points / at the end (simsync registry with acquisition sites); a second pass runs on a -race build", SRV + "; the race pass is limited by the happens-before edges the scheduler itself introduces (DESIGN.md section 6)"),
 })
+CHECKS.update({
+ "C09": ("3.C09", "hostile bytes (random; bit flips, length rewrites, attribute-length overruns, truncation, extension of valid messages; every class/method pair, STUN lengths 0xFFEC-0xFFFF, ChannelData lengths 0xFFF8-0xFFFF, unknown comprehension-required attributes, 0-byte datagrams) delivered as datagrams to the UDP listener, under arbitrary segmentation to the TCP listener and to STUNConn, to relay sockets, to Client.HandleInbound and through Client.Listen, from strangers and from authenticated owners; no panic (worker death), no busy loop (yield budget per scheduler step), no wedge (real-time watchdog), documented handled/error classification, and a liveness probe (Binding + authenticated Refresh, or a client transaction) afterwards", "real server / client / STUNConn on simulated sockets, clock, scheduler"),
+ "C17": ("3.C17", "credentials generated by both generators at one fake instant (sub-second phases, durations negative..days) and validated by the matching handler at instants up to, around and after the stamped second, with single-character mutations of username and password, a later timestamp with the old password, another secret; returned key compared with an independent MD5(user:realm:password); end to end a real client allocates through the real server with NewLongTermAuthHandler / LongTermTURNRESTAuthHandler before and after expiry and with forged pairs", "real lt_cred.go generators and handlers on the simulated clock; real client and server for the end-to-end share"),
+ "C20": ("3.C20", "the three bundled generators over a simulated transport.Net with a scripted random source (0, n-1, a colliding value repeated, a walk over the range), (MinPort,MaxPort) pairs incl. (p,p), (1,65535), (65535,65535), (65534,65535), MaxRetries 1..20, ports occupied by others, injected bind failures, fill/drain histories, udp4/udp6/tcp4/tcp6, with and without a requested port; advertised IP/port = configured relay address / really bound port, inside the range, unshared among live objects, clean failure (no socket left open)", "real relay_address_generator_*.go over simnet's transport.Net; this property is at the edge of the family (configurations x random-source outputs); bind failures, socket accounting and histories are what the simulator adds"),
+})
 TECH = "deterministic simulation with fault injection (seeded plans, simulated network/clock/scheduler, reference-model oracle, ddmin-minimised replay files)"
 
 checks = []
